@@ -16,11 +16,24 @@ M1_NOTE = ("trusted: Lean kernel; axioms propext / Classical.choice / Quot.sound
            "user code is limited to harness scripts (one suspension point per worker, plain/coroutine/raising callbacks, "
            "hook alphabet without set_size)")
 TEXT = {
-    "C01": "invariant by induction (slot conservation + phase invariant) => live workers <= size in every reachable state",
+    "C01": "invariant by induction (slot conservation + phase + registry invariant) => live workers and num_running+num_cancelled <= size in every reachable state; idle is_full clause is a monitor",
+    "C02": "slot conservation in every reachable state; accounting free+granted+running+cancelled=size (hypothesis lost=false, watched by the driver bit)",
+    "C03": "registry invariant: one registry per id, meaning of each registry (partial: finite size, no pool_size assignment); callback counts are monitors",
+    "C04": "loop accounting of the apply/start spawner for every n and pool state (created+skipped+remaining conserved; done means all)",
+    "C05": "loop accounting of the map consumer (in order, lazy, one element in hand at most; partial: iterator makes no pool calls); concurrency/work conservation are monitors",
+    "C06": "decision logic stated outright: all-or-nothing with full state equality, classification, exact frame and delivery",
+    "C07": "what cancel_group/cancel_all do (frame, forgotten name) and what a spawner does at its next step for each placement of the cancellation",
+    "C08": "step-level theorems of the stages of gather_and_close (collecting gather waits for the last child, closing step, until_closed); whole-history waiting is a monitor",
+    "C09": "complete decision tables of the spawning calls, full state equality on rejection, lock/unlock algebra",
+    "C10": "get_group_ids spec, freshness of generated names (pigeonhole; assumes decimal rendering injective), membership of new tasks",
+    "C11": "ids are list indices: new id = number of tasks created, never reused, pools independent, class-level indices distinct for every history",
+    "C12": "a failing worker takes the same ending path (slot released, filed as ended); collecting gathers cannot raise; reported exception is a child's",
+    "C13": "exact effect of flush's last step (only snapshotted ids are forgotten), collecting flush cannot raise",
+    "C14": "stop(n) = cancel of the last min(n,running) ids newest first; never raises; others unaffected",
+    "C15": "as-is semantics proved exactly + closed refutations of the three violated clauses (known findings R5), negative value rejected",
+    "C20": "refinement proof over all histories of the queue machine: exactly-once marking, unfinished=puts-exits, join iff",
 }
-TECH = {
-    "C01": "Lean 4 invariant proof (induction over histories) + lock-step correspondence with the real pool",
-}
+TECH = {k: "Lean 4 proof over an executable model (induction over histories / decision logic) + lock-step correspondence with the real code" for k in TEXT}
 checks, na = [], []
 for p in props:
     pid = p["id"]
